@@ -1,22 +1,34 @@
-(* Proofs about model/PacketRecv.v: a packet that does not open leaves every modelled field of the connection unchanged. *)
-From AQ Require Import lib.Base lib.Tok model.KeyPhase proofs.KeyPhaseProofs model.PacketRecv.
+(* Proofs about model/PacketRecv.v: a packet that does not open leaves every modelled field of the connection unchanged
+   (key state of every epoch, key-phase state, packet spaces, discard flags, peer CID, spin bit, close state, timers ...). *)
+From AQ Require Import lib.Base lib.Tok model.KeyPhase proofs.KeyPhaseProofs model.PacketNumber model.RangeSet gen.C02Recv model.PacketRecv.
+
+(* ---- the transcription is pinned to the source: gen/C02Recv.v is written from the tree under check on every run ---- *)
+Lemma packet_recv_as_modelled_lemma :
+  RECV_SKELETON = modelled_skeleton /\
+  GET_EPOCH_OK = true /\ DISCARD_EPOCH_OK = true /\ DISCARD_SPACE_CLEARS_ACK_AT = true /\ CLOSE_OK = true /\ SPIN_FN_OK = true /\
+  DISCARD_SITES = [(1, 0); (2, 0); (3, 9); (4, 2); (5, 2)] /\ KEY_UPDATE_SITES = [6] /\
+  RESERVED_MASK_SHORT = M_RESERVED_SHORT /\ RESERVED_MASK_LONG = M_RESERVED_LONG /\ PROTOCOL_VIOLATION_CODE = M_PROTOCOL_VIOLATION /\
+  SPIN_BIT = M_SPIN_BIT /\ M_RESERVED_SHORT = 24 /\ M_RESERVED_LONG = 12 /\ M_PROTOCOL_VIOLATION = 10 /\ M_SPIN_BIT = 32.
+Proof. repeat split; reflexivity. Qed.
 
 Section P.
-  Variable frames : list Z -> bool * option Z.
+  Variable frames : list Z -> fres.
   Variable idle_timeout ack_delay : Z.
   Notation recv := (recv_packet frames idle_timeout ack_delay).
+  Notation recvs := (recv_all frames idle_timeout ack_delay).
+  Notation dropu := (drop_unauth frames idle_timeout ack_delay).
 
-  (* CryptoError: nothing changes -- crypto state, packet spaces (expected / largest packet number, ack queue, ack timer),
-     connection state, close state, idle timer, delivered payloads, retransmission flag *)
+  (* CryptoError: nothing changes *)
   Lemma crypto_error_no_effect : forall c r now, decrypt c r = CryptoErr -> recv c r now = c.
-  Proof. intros c r now H. unfold recv_packet. rewrite H. reflexivity. Qed.
+  Proof. intros c r now H. unfold recv_packet. destruct (c_close c); [reflexivity|]. rewrite H. reflexivity. Qed.
 
   (* a packet that is not an unmodified sealing (q_auth = None: altered in any bit, forged, wrong keys), whatever its key
      phase bit, type, claimed packet number and content, for which the receiver has keys: decryption fails ... *)
   Lemma unauthentic_is_crypto_error : forall c r, has_keys c (r_epoch r) = true -> q_auth (r_q r) = None -> decrypt c r = CryptoErr.
   Proof.
-    intros c r K A. unfold decrypt. rewrite K. cbn [negb]. destruct (r_epoch r); rewrite ?A; try reflexivity;
-      rewrite (inauthentic_rejected_lemma (c_pair c) (r_q r) A); reflexivity.
+    intros c r K A. unfold decrypt. rewrite K. cbn [negb]. destruct (negb (decoded_pn c r =? r_pn r)); [reflexivity|].
+    destruct (r_epoch r); rewrite ?A; try reflexivity.
+    rewrite (inauthentic_rejected_lemma (c_pair c) (r_q r) A). reflexivity.
   Qed.
 
   (* ... and the connection is exactly as it was *)
@@ -24,15 +36,22 @@ Section P.
     recv c r now = c.
   Proof. intros c r now K A. apply crypto_error_no_effect. apply unauthentic_is_crypto_error; assumption. Qed.
 
+  (* an authentic packet whose truncated number does not expand to the number it was sealed with (too old, too far ahead):
+     wrong nonce, dropped without effect *)
+  Lemma out_of_window_no_effect : forall c r now, has_keys c (r_epoch r) = true -> decoded_pn c r <> r_pn r -> recv c r now = c.
+  Proof.
+    intros c r now K D. apply crypto_error_no_effect. unfold decrypt. rewrite K. cbn [negb].
+    destruct (decoded_pn c r =? r_pn r) eqn:E; [apply Z.eqb_eq in E; contradiction | reflexivity].
+  Qed.
+
   (* no keys for the packet's epoch (any packet, authentic or not): dropped; the only thing that can change is the client's
      one-shot Initial retransmission (RFC 9002 6.2.3: flag set, data rescheduled once) *)
   Lemma key_unavailable_effect : forall c r now, has_keys c (r_epoch r) = false ->
     recv c r now = c \/
     (c_is_client c = true /\ c_crypto_retransmitted c = false /\ (r_epoch r = EHandshake \/ r_epoch r = EOneRtt) /\
-     recv c r now = mkC (c_is_client c) (c_keys_initial c) (c_keys_handshake c) (c_keys_onertt c) (c_pair c) (c_sp_initial c) (c_sp_handshake c)
-                      (c_sp_onertt c) true (c_rescheduled c + 1) (c_connected c) (c_close c) (c_close_at c) (c_delivered c)).
+     recv c r now = set_retransmitted c).
   Proof.
-    intros c r now K. unfold recv_packet, decrypt. rewrite K. cbn [negb].
+    intros c r now K. unfold recv_packet, decrypt. destruct (c_close c); [left; reflexivity|]. rewrite K. cbn [negb].
     destruct (c_is_client c) eqn:IC; [|left; reflexivity]. destruct (c_crypto_retransmitted c) eqn:RT.
     - left. rewrite Bool.andb_false_r. reflexivity.
     - destruct (r_epoch r) eqn:E; cbn; auto 6.
@@ -41,50 +60,239 @@ Section P.
   Lemma key_unavailable_server_no_effect : forall c r now, has_keys c (r_epoch r) = false -> c_is_client c = false -> recv c r now = c.
   Proof. intros c r now K S. destruct (key_unavailable_effect c r now K) as [H | (H & _)]; [exact H | congruence]. Qed.
 
-  Fixpoint recv_all (c : conn) (rs : list (rpacket * Z)) : conn :=
-    match rs with [] => c | (r, now) :: t => recv_all (recv c r now) t end.
-
-  Lemma keys_constant : forall c r now e, has_keys (recv c r now) e = has_keys c e.
+  (* whatever does not open changes nothing but that flag *)
+  Lemma not_opened_effect : forall c r now, (forall p', decrypt c r <> Opened p') ->
+    recv c r now = c \/ recv c r now = set_retransmitted c.
   Proof.
-    intros c r now e. unfold recv_packet. destruct (decrypt c r); try reflexivity.
-    - destruct (c_is_client c && (epoch_eqb (r_epoch r) EHandshake || epoch_eqb (r_epoch r) EOneRtt) && negb (c_crypto_retransmitted c)); destruct e; reflexivity.
-    - destruct (negb (Z.land (r_first r) (if epoch_eqb (r_epoch r) EOneRtt then 24 else 12) =? 0)); [destruct e; reflexivity|].
-      destruct (frames (r_payload r)) as [el err].
-      destruct (r_epoch r), err; cbn; try (destruct e; reflexivity);
-        match goal with |- context [match ?x with Some _ => _ | None => _ end] => destruct x end; cbn;
-        try (destruct e; reflexivity);
-        repeat match goal with |- context [if ?b then _ else _] => destruct b end; destruct e; reflexivity.
+    intros c r now N. unfold recv_packet. destruct (c_close c); [left; reflexivity|].
+    destruct (decrypt c r) eqn:D; auto.
+    - destruct (_ && _ && _); auto.
+    - exfalso. eapply N. reflexivity.
   Qed.
 
-  (* no LATER effect: in any sequence of received packets, the unauthentic ones can be deleted without changing the final state *)
-  Lemma unauthentic_packets_no_later_effect_lemma : forall rs c,
-    recv_all c rs = recv_all c (filter (fun rn => negb (has_keys c (r_epoch (fst rn)) && match q_auth (r_q (fst rn)) with None => true | Some _ => false end)) rs).
+  (* no LATER effect: in any sequence of received packets, the unauthentic ones for whose epoch the receiver has keys when they
+     arrive can be deleted without changing the final state *)
+  Lemma unauthentic_packets_no_later_effect_lemma : forall rs c, recvs c rs = recvs c (dropu c rs).
   Proof.
-    induction rs as [|[r now] t IH]; intros c; [reflexivity|]. cbn [filter fst].
-    destruct (has_keys c (r_epoch r)) eqn:K; cbn [andb negb].
-    - destruct (q_auth (r_q r)) eqn:A; cbn [negb recv_all].
-      + rewrite IH. f_equal. apply filter_ext. intros [r' n']. cbn [fst]. rewrite keys_constant. reflexivity.
+    induction rs as [|[r now] t IH]; intros c; [reflexivity|]. cbn [drop_unauth recv_all].
+    destruct (has_keys c (r_epoch r)) eqn:K; cbn [andb].
+    - destruct (q_auth (r_q r)) eqn:A.
+      + cbn [recv_all]. apply IH.
       + rewrite (unauthentic_packet_no_effect_conn_lemma c r now K A). apply IH.
-    - cbn [recv_all]. rewrite IH. f_equal. apply filter_ext. intros [r' n']. cbn [fst]. rewrite keys_constant. reflexivity.
+    - cbn [recv_all]. apply IH.
   Qed.
 
   (* the reserved bits are looked at only after the packet has authenticated: then the connection is closed with
-     PROTOCOL_VIOLATION, nothing is delivered, no packet number is recorded -- but a remote key update has already happened *)
+     PROTOCOL_VIOLATION and NOTHING else changes (no packet number recorded, nothing delivered, no epoch discarded, peer CID and
+     spin bit as before, idle timer untouched) -- except that a remote key update has already happened *)
   Lemma reserved_bits_checked_after_decrypt : forall c r now p',
-    decrypt c r = Opened p' -> Z.land (r_first r) (if epoch_eqb (r_epoch r) EOneRtt then 24 else 12) <> 0 ->
-    let c' := recv c r now in
-    c_close c' = Some PROTOCOL_VIOLATION /\ c_delivered c' = c_delivered c /\ c_pair c' = p' /\
-    c_sp_initial c' = c_sp_initial c /\ c_sp_handshake c' = c_sp_handshake c /\ c_sp_onertt c' = c_sp_onertt c /\ c_close_at c' = c_close_at c.
+    c_close c = None -> decrypt c r = Opened p' -> reserved_set r = true ->
+    recv c r now = set_close (set_pair c p') M_PROTOCOL_VIOLATION /\ c_close (recv c r now) = Some 10.
   Proof.
-    intros c r now p' D R. cbv zeta. unfold recv_packet. rewrite D.
-    destruct (Z.land (r_first r) (if epoch_eqb (r_epoch r) EOneRtt then 24 else 12) =? 0) eqn:E; [apply Z.eqb_eq in E; contradiction|].
-    cbn. repeat split; reflexivity.
+    intros c r now p' G D R. unfold recv_packet. rewrite G, D, R. split; [reflexivity|]. cbn. rewrite G. reflexivity.
+  Qed.
+
+  (* ---- _discard_epoch ---- *)
+  Lemma discard_epoch_discards : forall c e, e = EInitial \/ e = EHandshake ->
+    sp_discarded (space_of (discard_epoch c e) e) = true /\
+    (sp_discarded (space_of c e) = false -> has_keys (discard_epoch c e) e = false).
+  Proof.
+    intros c e [E | E]; subst e; unfold discard_epoch; cbn [space_of];
+      match goal with |- context [if ?b then _ else _] => destruct b eqn:D end; cbn; auto; split; auto; discriminate.
+  Qed.
+
+  (* a packet for an epoch that has been discarded (Initial after the first Handshake packet, Handshake after confirmation)
+     is dropped, authentic or not *)
+  Lemma discarded_epoch_packet_dropped : forall c e r now, e = EInitial \/ e = EHandshake ->
+    sp_discarded (space_of c e) = false -> r_epoch r = e ->
+    let c' := discard_epoch c e in recv c' r now = c' \/ recv c' r now = set_retransmitted c'.
+  Proof.
+    intros c e r now E D R c'. apply not_opened_effect. intros p' H.
+    assert (K : has_keys c' (r_epoch r) = false) by (rewrite R; apply (discard_epoch_discards c e E); exact D).
+    unfold decrypt in H. rewrite K in H. discriminate.
+  Qed.
+
+  Lemma on_handshake_sent_client : forall c, c_is_client c = true -> sp_discarded (c_sp_initial c) = false ->
+    has_keys (on_handshake_sent c) EInitial = false /\ sp_discarded (c_sp_initial (on_handshake_sent c)) = true.
+  Proof.
+    intros c IC D. unfold on_handshake_sent. rewrite IC.
+    destruct (discard_epoch_discards c EInitial (or_introl eq_refl)) as [A B]. split; [apply B; exact D | exact A].
+  Qed.
+
+  (* ---- what the payload's effects cannot touch ---- *)
+  Lemma fx_frame : forall fs c, let c' := fold_left apply_fx fs c in
+    c_is_client c' = c_is_client c /\ c_keys_initial c' = c_keys_initial c /\ c_sp_initial c' = c_sp_initial c /\
+    c_peer_latched c' = c_peer_latched c /\ c_peer_cid c' = c_peer_cid c /\ c_spin c' = c_spin c /\
+    c_spin_highest c' = c_spin_highest c /\ c_close c' = c_close c /\ c_sp_onertt c' = c_sp_onertt c.
+  Proof.
+    induction fs as [|f t IH]; intros c; cbn [fold_left]; [repeat split; reflexivity|].
+    specialize (IH (apply_fx c f)). cbv zeta in IH |- *.
+    destruct IH as (A1 & A2 & A3 & A4 & A5 & A6 & A7 & A8 & A9).
+    rewrite A1, A2, A3, A4, A5, A6, A7, A8, A9.
+    destruct f; cbn [apply_fx]; unfold discard_epoch; cbn [space_of];
+      try (destruct (sp_discarded (c_sp_handshake c))); cbn; repeat split; reflexivity.
+  Qed.
+
+  (* a server that opens a Handshake packet (reserved bits clear) has discarded the Initial epoch when receive_datagram returns:
+     keys gone, space marked, whatever the payload did *)
+  Lemma server_handshake_packet_discards_initial : forall c r now p',
+    c_is_client c = false -> c_close c = None -> decrypt c r = Opened p' -> reserved_set r = false -> r_epoch r = EHandshake ->
+    sp_discarded (c_sp_initial c) = false ->
+    has_keys (recv c r now) EInitial = false /\ sp_discarded (c_sp_initial (recv c r now)) = true.
+  Proof.
+    intros c r now p' IC G D R E ND. unfold recv_packet. rewrite G, D, R. unfold process. rewrite E. cbn [epoch_eqb andb].
+    set (c2 := set_space _ _ _).
+    assert (IC2 : c_is_client c2 = false) by (subst c2; cbn; exact IC). rewrite IC2. cbn [negb andb].
+    set (c3 := discard_epoch c2 EInitial).
+    assert (K3 : c_keys_initial c3 = false /\ sp_discarded (c_sp_initial c3) = true).
+    { subst c3 c2. unfold discard_epoch. cbn [space_of set_space set_pair c_sp_initial]. rewrite ND. cbn. auto. }
+    clearbody c3. clear c2 IC2.
+    set (c4 := if c_peer_latched c3 then c3 else latch_peer c3 (r_scid r)).
+    assert (K4 : c_keys_initial c4 = false /\ sp_discarded (c_sp_initial c4) = true) by (subst c4; destruct (c_peer_latched c3); cbn; exact K3).
+    clearbody c4.
+    set (c5 := if c_connected c4 then c4 else set_connected c4 (r_scid r)).
+    assert (K5 : c_keys_initial c5 = false /\ sp_discarded (c_sp_initial c5) = true) by (subst c5; destruct (c_connected c4); cbn; exact K4).
+    clearbody c5.
+    pose proof (fx_frame (f_fx (frames (r_payload r))) (deliver c5 (r_payload r))) as F. cbv zeta in F.
+    destruct F as (_ & F2 & F3 & _).
+    set (c7 := fold_left apply_fx _ _) in *.
+    assert (K8 : forall c8, c8 = match f_err (frames (r_payload r)) with Some k => set_close c7 k | None => c7 end ->
+                 c_keys_initial c8 = false /\ sp_discarded (c_sp_initial c8) = true).
+    { intros c8 ->. destruct (f_err _); cbn; rewrite F2, F3; cbn; exact K5. }
+    specialize (K8 _ eq_refl). set (c8 := match f_err _ with Some k => set_close c7 k | None => c7 end) in *.
+    clearbody c8. destruct (c_close c8); [exact K8|]. cbv zeta. cbn [space_of].
+    match goal with |- context [if ?b then _ else _] => destruct b end; cbn; exact K8.
+  Qed.
+
+  (* the peer's connection ID is latched by the FIRST packet that opens with clear reserved bits, and only by it *)
+  Lemma peer_cid_latched_once : forall c r now, c_peer_latched c = true ->
+    c_peer_latched (recv c r now) = true /\ c_peer_cid (recv c r now) = c_peer_cid c.
+  Proof.
+    intros c r now L. unfold recv_packet. destruct (c_close c); [auto|].
+    destruct (decrypt c r) as [| |p'].
+    - destruct (_ && _ && _); cbn; auto.
+    - auto.
+    - destruct (reserved_set r); [cbn; auto|]. unfold process.
+      set (c2 := set_space _ _ _).
+      set (c3 := if negb (c_is_client c2) && epoch_eqb (r_epoch r) EHandshake then discard_epoch c2 EInitial else c2).
+      assert (L3 : c_peer_latched c3 = true /\ c_peer_cid c3 = c_peer_cid c).
+      { subst c3 c2. destruct (negb _ && _); [unfold discard_epoch; destruct (sp_discarded _)|]; cbn; auto. }
+      destruct L3 as [L3 P3]. clearbody c3. rewrite L3.
+      set (c5 := if c_connected c3 then c3 else set_connected c3 (r_scid r)).
+      assert (L5 : c_peer_latched c5 = true /\ c_peer_cid c5 = c_peer_cid c) by (subst c5; destruct (c_connected c3); cbn; auto).
+      destruct L5 as [L5 P5]. clearbody c5.
+      set (c6 := if epoch_eqb (r_epoch r) EOneRtt && (r_pn r >? c_spin_highest c5) then _ else c5).
+      assert (L6 : c_peer_latched c6 = true /\ c_peer_cid c6 = c_peer_cid c) by (subst c6; destruct (_ && _); cbn; auto).
+      destruct L6 as [L6 P6]. clearbody c6.
+      pose proof (fx_frame (f_fx (frames (r_payload r))) (deliver c6 (r_payload r))) as F. cbv zeta in F.
+      destruct F as (_ & _ & _ & F4 & F5 & _).
+      set (c7 := fold_left apply_fx _ _) in *.
+      assert (L8 : forall c8, c8 = match f_err (frames (r_payload r)) with Some k => set_close c7 k | None => c7 end ->
+                   c_peer_latched c8 = true /\ c_peer_cid c8 = c_peer_cid c).
+      { intros c8 ->. destruct (f_err _); cbn; rewrite F4, F5; cbn; auto. }
+      specialize (L8 _ eq_refl). set (c8 := match f_err _ with Some k => set_close c7 k | None => c7 end) in *.
+      clearbody c8. destruct (c_close c8); [exact L8|]. cbv zeta.
+      destruct (r_epoch r); cbn [space_of]; match goal with |- context [if ?b then _ else _] => destruct b end; cbn; exact L8.
+  Qed.
+
+  Lemma first_opened_packet_latches_peer_cid : forall c r now p', c_close c = None -> c_peer_latched c = false ->
+    decrypt c r = Opened p' -> reserved_set r = false ->
+    c_peer_latched (recv c r now) = true /\ c_peer_cid (recv c r now) = r_scid r.
+  Proof.
+    intros c r now p' G L D R. unfold recv_packet. rewrite G, D, R. unfold process.
+    set (c2 := set_space _ _ _).
+    set (c3 := if negb (c_is_client c2) && epoch_eqb (r_epoch r) EHandshake then discard_epoch c2 EInitial else c2).
+    assert (L3 : c_peer_latched c3 = false).
+    { subst c3 c2. destruct (negb _ && _); [unfold discard_epoch; destruct (sp_discarded _)|]; cbn; auto. }
+    clearbody c3. rewrite L3.
+    set (c4 := latch_peer c3 (r_scid r)).
+    set (c5 := if c_connected c4 then c4 else set_connected c4 (r_scid r)).
+    assert (L5 : c_peer_latched c5 = true /\ c_peer_cid c5 = r_scid r) by (subst c5 c4; destruct (c_connected _); cbn; auto).
+    destruct L5 as [L5 P5]. clearbody c5.
+    set (c6 := if epoch_eqb (r_epoch r) EOneRtt && (r_pn r >? c_spin_highest c5) then _ else c5).
+    assert (L6 : c_peer_latched c6 = true /\ c_peer_cid c6 = r_scid r) by (subst c6; destruct (_ && _); cbn; auto).
+    destruct L6 as [L6 P6]. clearbody c6.
+    pose proof (fx_frame (f_fx (frames (r_payload r))) (deliver c6 (r_payload r))) as F. cbv zeta in F.
+    destruct F as (_ & _ & _ & F4 & F5 & _).
+    set (c7 := fold_left apply_fx _ _) in *.
+    assert (L8 : forall c8, c8 = match f_err (frames (r_payload r)) with Some k => set_close c7 k | None => c7 end ->
+                 c_peer_latched c8 = true /\ c_peer_cid c8 = r_scid r).
+    { intros c8 ->. destruct (f_err _); cbn; rewrite F4, F5; cbn; auto. }
+    specialize (L8 _ eq_refl). set (c8 := match f_err _ with Some k => set_close c7 k | None => c7 end) in *.
+    clearbody c8. destruct (c_close c8); [exact L8|]. cbv zeta.
+    destruct (r_epoch r); cbn [space_of]; match goal with |- context [if ?b then _ else _] => destruct b end; cbn; exact L8.
+  Qed.
+
+  Lemma peer_cid_latch_lemma : forall c r now,
+    (c_peer_latched c = true -> c_peer_latched (recv c r now) = true /\ c_peer_cid (recv c r now) = c_peer_cid c) /\
+    (forall p', c_close c = None -> c_peer_latched c = false -> decrypt c r = Opened p' -> reserved_set r = false ->
+       c_peer_latched (recv c r now) = true /\ c_peer_cid (recv c r now) = r_scid r).
+  Proof. intros. split; [apply peer_cid_latched_once | intros; eapply first_opened_packet_latches_peer_cid; eassumption]. Qed.
+
+  (* the spin bit and _spin_highest_pn move only for an opened 1-RTT packet with a larger packet number *)
+  Lemma spin_changes_only_by_newer_onertt : forall c r now,
+    (c_spin (recv c r now) <> c_spin c \/ c_spin_highest (recv c r now) <> c_spin_highest c) ->
+    (exists p', decrypt c r = Opened p') /\ r_epoch r = EOneRtt /\ r_pn r > c_spin_highest c /\ c_spin_highest (recv c r now) = r_pn r.
+  Proof.
+    intros c r now. unfold recv_packet. destruct (c_close c); [intros [H | H]; contradiction|].
+    destruct (decrypt c r) as [| |p'] eqn:D.
+    - destruct (_ && _ && _); cbn; intros [H | H]; contradiction.
+    - intros [H | H]; contradiction.
+    - destruct (reserved_set r); [cbn; intros [H | H]; contradiction|]. unfold process.
+      set (c2 := set_space _ _ _).
+      set (c3 := if negb (c_is_client c2) && epoch_eqb (r_epoch r) EHandshake then discard_epoch c2 EInitial else c2).
+      set (c4 := if c_peer_latched c3 then c3 else latch_peer c3 (r_scid r)).
+      set (c5 := if c_connected c4 then c4 else set_connected c4 (r_scid r)).
+      assert (S5 : c_spin c5 = c_spin c /\ c_spin_highest c5 = c_spin_highest c).
+      { subst c5 c4 c3 c2. destruct (c_connected _); destruct (c_peer_latched _); destruct (negb _ && _);
+          try (unfold discard_epoch; destruct (sp_discarded _)); cbn; auto. }
+      destruct S5 as [S5 H5]. clearbody c5. rewrite H5.
+      set (c6 := if epoch_eqb (r_epoch r) EOneRtt && (r_pn r >? c_spin_highest c) then _ else c5).
+      pose proof (fx_frame (f_fx (frames (r_payload r))) (deliver c6 (r_payload r))) as F. cbv zeta in F.
+      destruct F as (_ & _ & _ & _ & _ & F6 & F7 & _).
+      set (c7 := fold_left apply_fx _ _) in *.
+      assert (L8 : forall c8, c8 = match f_err (frames (r_payload r)) with Some k => set_close c7 k | None => c7 end ->
+                   c_spin c8 = c_spin c6 /\ c_spin_highest c8 = c_spin_highest c6).
+      { intros c8 ->. destruct (f_err _); cbn; rewrite F6, F7; cbn; auto. }
+      specialize (L8 _ eq_refl). set (c8 := match f_err _ with Some k => set_close c7 k | None => c7 end) in *.
+      assert (L9 : forall c9, c9 = match c_close c8 with Some _ => c8 | None =>
+                     let c9 := set_close_at c8 (now + idle_timeout) in let s := space_of c9 (r_epoch r) in
+                     if sp_discarded s then c9 else set_space c9 (r_epoch r) (record_packet s (r_pn r) now ack_delay (f_elic (frames (r_payload r)))) end ->
+                   c_spin c9 = c_spin c6 /\ c_spin_highest c9 = c_spin_highest c6).
+      { intros c9 ->. clearbody c8. destruct (c_close c8); [exact L8|]. cbv zeta.
+        destruct (r_epoch r); cbn [space_of]; match goal with |- context [if ?b then _ else _] => destruct b end; cbn; exact L8. }
+      specialize (L9 _ eq_refl). destruct L9 as [L9 H9]. cbv zeta in L9, H9 |- *. rewrite L9, H9.
+      subst c6. destruct (epoch_eqb (r_epoch r) EOneRtt) eqn:E; cbn [andb].
+      + destruct (r_pn r >? c_spin_highest c) eqn:G.
+        * intros _. split; [eauto|]. split; [destruct (r_epoch r); try discriminate; reflexivity|]. split; [lia | reflexivity].
+        * rewrite S5, H5. intros [H | H]; contradiction.
+      + rewrite S5, H5. intros [H | H]; contradiction.
   Qed.
 End P.
 
-(* the premises are satisfiable: a server with all keys, a forged 1-RTT packet carrying the other key phase bit *)
+(* the premises are satisfiable: a server with 1-RTT keys only, a forged 1-RTT packet carrying the other key phase bit *)
 Example unauthentic_example :
-  let sp := mkSp 7 6 100 [5; 6] None false in
-  let c := mkC false true true true pair_init sp sp sp false 0 true None 500 [] in
-  recv_packet (fun _ => (true, None)) 60 1 c (mkR EOneRtt (mkQ None 1 false) 64 7 [1; 2; 3]) 200 = c.
+  let sp := mkSp 7 6 100 [(5, 7)] None false in
+  let spd := mkSp 3 2 50 [] None true in
+  let c := mkC false false false false true pair_init spd spd sp false 0 true None 500 [] true [1] [1] false 6 in
+  recv_packet (fun _ => mkF true None []) 60 1 c (mkR EOneRtt (mkQ None 1 false) 64 7 2 [] [1; 2; 3]) 200 = c.
 Proof. reflexivity. Qed.
+
+(* ... and the same packet when authentic IS processed: recorded, spin bit taken over (expected_packet_number is NOT raised by a
+   packet whose number equals it: `if packet_number > space.expected_packet_number`, the code as it is) *)
+Example authentic_example :
+  let sp := mkSp 7 6 100 [(5, 7)] None false in
+  let spd := mkSp 3 2 50 [] None true in
+  let c := mkC false false false false true pair_init spd spd sp false 0 true None 500 [] true [1] [1] false 6 in
+  let c' := recv_packet (fun _ => mkF true None []) 60 1 c (mkR EOneRtt (mkQ (Some 0) 0 false) 96 7 2 [] [1; 2; 3]) 200 in
+  c_sp_onertt c' = mkSp 7 7 200 [(5, 8)] (Some 201) false /\ c_spin c' = true /\ c_spin_highest c' = 7 /\ c_close_at c' = 260.
+Proof. repeat split; reflexivity. Qed.
+
+(* a server's first Handshake packet discards the Initial epoch; an Initial packet that arrives afterwards finds no keys *)
+Example discard_example :
+  let sp := mkSp 1 0 10 [(0, 1)] None false in
+  let c := mkC false true false true false pair_init sp sp sp false 0 true None 500 [] true [1] [1] false 0 in
+  let c' := recv_packet (fun _ => mkF true None []) 60 1 c (mkR EHandshake (mkQ (Some 0) 0 true) 224 1 2 [2] []) 20 in
+  c_keys_initial c' = false /\ sp_discarded (c_sp_initial c') = true /\
+  recv_verdict (fun _ => mkF true None []) 60 1 c' (mkR EInitial (mkQ (Some 0) 0 true) 192 1 2 [2] []) 30 = 1.
+Proof. repeat split; reflexivity. Qed.
